@@ -1,6 +1,6 @@
 SPECIFICATION SpecGen
 CONSTANTS
-  Metas <- MetasMock
+  Metas <- MetasMockG
   DHosts <- DH1
   Vals <- ValsMock
   E = 2
